@@ -25,3 +25,26 @@ func VerifMeterReset() {
 func VerifMeterRead() (int64, int64, int64) {
 	return atomic.LoadInt64(&verifDispatches), atomic.LoadInt64(&verifRolls) - atomic.LoadInt64(&verifDraws), atomic.LoadInt64(&verifFates)
 }
+
+// Emission trace: every opcode the parser's actions write, in the order they are written (abandoned alternatives included).
+// Single-threaded use only (the harness parses one input at a time while tracing).
+var verifEmitOn bool
+var verifEmits []CodeType
+
+func verifTraceEmit(t CodeType) {
+	if verifEmitOn {
+		verifEmits = append(verifEmits, t)
+	}
+}
+
+// VerifEmitTraceStart clears the trace and switches it on; VerifEmitTraceStop switches it off and returns the opcodes.
+func VerifEmitTraceStart() { verifEmits = verifEmits[:0]; verifEmitOn = true }
+
+func VerifEmitTraceStop() []int {
+	verifEmitOn = false
+	out := make([]int, len(verifEmits))
+	for i, t := range verifEmits {
+		out[i] = int(t)
+	}
+	return out
+}
